@@ -22,7 +22,11 @@ Section Tree3.
     intros f p s H8 Hp Hs Hf. apply ispec_of_csat, csat_of_cacc. unfold dec_edts_fuel.
     do 5 cacc_step.
     - cacc_step. cacc_step. cacc_step. cacc_step; [cacc_go|].
-      destruct b; try (cacc_go; fail).
+      match goal with
+      | |- cacc ?d0 ?p0 ?w0 ?a0 (bind (match ?b0 with FtypBox => _ | _ => _ end) ?k0) ?W0 ?Al0 ?Q0 =>
+          assert (Hdflt : cacc d0 p0 w0 a0 (bind (Ret (@None elst)) k0) W0 Al0 Q0) by cacc_go
+      end.
+      destruct b; try exact Hdflt; clear Hdflt.
       apply cacc_assoc. cacc_kid (elst_ok d Hd Hlen m). cacc_go.
     - cacc_go.
   Qed.
